@@ -28,36 +28,31 @@ struct Stripped {
 }
 
 fn strip_artifacts(seg: &[u8]) -> Stripped {
+    // Wording-independent: everything up to and including the last prompt marker of a segment is prompt
+    // artefact (announcements precede their prompt; the instruction's own output follows the last prompt, because
+    // a prompt is answered before the instruction runs / after an INT 3 ran and before the next record).
+    // The announced line number is the first integer of each piece that ends in a prompt.
     let s = String::from_utf8_lossy(seg).to_string();
-    let mut out = String::new();
     let mut st = Stripped { clean: vec![], prompts: 0, announced: vec![], int3_lines: vec![], trap_notes: 0 };
-    let mut i = 0;
-    let b = s.as_bytes();
-    while i < b.len() {
-        let rest = &s[i..];
-        if rest.starts_with(">>> ") {
-            st.prompts += 1;
-            i += 4;
-        } else if rest.starts_with("About to execute line ") {
-            let after = &rest[22..];
-            let n: String = after.chars().take_while(|c| c.is_ascii_digit()).collect();
-            st.announced.push(n.parse().unwrap_or(0));
-            i += rest.find('\n').map(|x| x + 1).unwrap_or(rest.len());
-        } else if rest.starts_with("Trap flag is set\n") {
+    let pieces: Vec<&str> = s.split(">>> ").collect();
+    st.prompts = pieces.len() - 1;
+    for p in &pieces[..pieces.len() - 1] {
+        let mut num = String::new();
+        for c in p.chars() {
+            if c.is_ascii_digit() {
+                num.push(c);
+            } else if !num.is_empty() {
+                break;
+            }
+        }
+        if let Ok(n) = num.parse() {
+            st.announced.push(n);
+        }
+        if p.to_ascii_lowercase().contains("trap") {
             st.trap_notes += 1;
-            i += 17;
-        } else if rest.starts_with("Int 3 at line ") {
-            let after = &rest[14..];
-            let n: String = after.chars().take_while(|c| c.is_ascii_digit()).collect();
-            st.int3_lines.push(n.parse().unwrap_or(0));
-            i += rest.find('\n').map(|x| x + 1).unwrap_or(rest.len());
-        } else {
-            let c = rest.chars().next().unwrap();
-            out.push(c);
-            i += c.len_utf8();
         }
     }
-    st.clean = out.into_bytes();
+    st.clean = pieces[pieces.len() - 1].as_bytes().to_vec();
     st
 }
 
@@ -248,7 +243,7 @@ pub fn run_case(rep: &Report, c: &Case, rng: &mut Rng, core: Option<usize>) {
         }
         if want_step == 1 {
             let line = c.stepped.pos.get(r.idx).map(|p| p.line).unwrap_or(0);
-            if st.announced.len() != 1 || st.announced[0] != line {
+            if st.announced.first() != Some(&line) {
                 let short = r.line.len() < 5;
                 fail(
                     format!("step:announced-line:{}", if short { "short-instruction" } else { "instruction" }),
@@ -261,8 +256,6 @@ pub fn run_case(rep: &Report, c: &Case, rng: &mut Rng, core: Option<usize>) {
             if r.tf && !interpreted && st.trap_notes != 1 {
                 rep.count("trap-flag notes missing (not judged)", 1);
             }
-        } else if !st.announced.is_empty() {
-            fail("step:announce-without-step".into(), "C20: an 'About to execute' announcement appears while stepping is not active".into(), format!("idx {}", r.idx), &nexts, &full);
         }
         for _ in 0..st.prompts {
             prompt_pos.push(k);
@@ -446,6 +439,36 @@ fn edge_cases(rep: &Report) {
         ("step-quit", "start:\nstc\nclc\n", true, b"n\nquit\n"),
         ("step-eof-mid", "start:\nstc\nclc\ncmc\n", true, b"n\n"),
     ];
+    // the same prompts with a stdin on which every read fails (a directory): reported or not, it must end
+    let unreadable: Vec<(&str, &str, bool)> = vec![
+        ("unreadable-stdin-step", "start:\nstc\nclc\n", true),
+        ("unreadable-stdin-int3", "start:\nint 3\nstc\n", false),
+        ("unreadable-stdin-tf", "start:\nmov ax, 256\npush ax\npopf\nstc\nclc\n", false),
+        ("unreadable-stdin-console-input", "start:\nmov ah,1\nint 0x21\nmov ah,10\nint 0x21\nint 3\n", false),
+    ];
+    for (name, src, interp) in unreadable {
+        let out = run_cli(src.as_bytes(), &CliOpts { interpreted: interp, stdin_path: Some("/"), cap: 4 << 20, timeout_s: 20.0, ..Default::default() });
+        rep.eval(1);
+        rep.distinct_str(&format!("edge|{}", name));
+        let sym = if out.flooded || (out.timed_out && out.stdout.len() >= (1 << 20)) {
+            Some("spin")
+        } else if out.timed_out {
+            rep.inconclusive("cli watchdog");
+            None
+        } else if !out.clean_exit() {
+            Some("abort")
+        } else {
+            None
+        };
+        if let Some(s) = sym {
+            rep.fail(Failure {
+                sig: format!("edge:{}:{}", name, s),
+                what: format!("C20: with a stdin that cannot be read, scenario `{}` makes the emulator {}", name, s),
+                witness: format!("{{\"kind\": \"cli\", \"interpreted_flag\": {}, \"source\": {}, \"stdin\": \"<a directory: every read fails>\", \"status\": {}}}", interp, json_str(src), json_str(&out.status_str())),
+                core_item: Some(format!("{}|{}", name, s)),
+            });
+        }
+    }
     for (name, src, interp, stdin) in cases {
         let out = run_cli(src.as_bytes(), &CliOpts { interpreted: interp, stdin, cap: 4 << 20, timeout_s: 20.0, ..Default::default() });
         rep.eval(1);
@@ -487,4 +510,4 @@ pub fn run(rep: &Report) {
     rep.floor("prompt histories run", rep.counter("prompt histories run"), 600);
 }
 
-pub const RULE: &str = "random terminating structured programs (jumps, counted loops, procedures, macro uses, print statements, INT 21h/2 character output) in four stepping modes: -i flag, trap flag set (and possibly cleared / set again later) through POPF, INT 3 breakpoints at random places, -i plus INT 3; each has a trigger-free twin with the same lines and instruction count. Runs per program: the twin plain; the stepped program with every prompt answered by a spelling of 'next'; three scripted prompt histories mixing n/next spellings, print commands, garbage, ending by q/quit, by end of input (also in the middle of a line) or by program completion. Oracle: (transparency) stdout with prompt artefacts removed and the final registers/flags (trap bit masked)/full memory equal the plain twin's; (one prompt per instruction) between consecutive hook records there is exactly one prompt when stepping is active for a program instruction, one more after an INT 3, none for the driver's appended hlt, and the announced line number is the generator-known line of that instruction; (history model) the hook-record sequence under a script equals the prefix predicted by the model: print/garbage never advance, next advances exactly one instruction, quit and end of input stop without executing anything further, prompts shown = commands read (+1 at end of input); no run may abort or spin (output cap 4 MiB with a watchdog). Fixed edge scenarios cover programs of 0/1 instructions, TF set by the last instruction, INT 3 last, quit/EOF at the first prompt. Distinct = (mode, prompt/record count class) and (mode, ending kind, stop position, print-command count).";
+pub const RULE: &str = "random terminating structured programs (jumps, counted loops, procedures, macro uses, print statements, INT 21h/2 character output) in four stepping modes: -i flag, trap flag set (and possibly cleared / set again later) through POPF, INT 3 breakpoints at random places, -i plus INT 3; each has a trigger-free twin with the same lines and instruction count. Runs per program: the twin plain; the stepped program with every prompt answered by a spelling of 'next'; three scripted prompt histories mixing n/next spellings, print commands, garbage, ending by q/quit, by end of input (also in the middle of a line) or by program completion. Oracle: (transparency) stdout with prompt artefacts removed and the final registers/flags (trap bit masked)/full memory equal the plain twin's; (one prompt per instruction) between consecutive hook records there is exactly one prompt when stepping is active for a program instruction, one more after an INT 3, none for the driver's appended hlt, and the announced line number is the generator-known line of that instruction; (history model) the hook-record sequence under a script equals the prefix predicted by the model: print/garbage never advance, next advances exactly one instruction, quit and end of input stop without executing anything further, prompts shown = commands read (+1 at end of input); no run may abort or spin (output cap 4 MiB with a watchdog). Fixed edge scenarios cover programs of 0/1 instructions, TF set by the last instruction, INT 3 last, quit/EOF at the first prompt, and a stdin on which every read fails. Distinct = (mode, prompt/record count class) and (mode, ending kind, stop position, print-command count).";
